@@ -1,0 +1,12 @@
+//go:build verif
+// +build verif
+
+// Contracts for the deductive verifier in /verif (comment-only file: it adds no code).
+package ctxio
+
+//@ func NewConn {C02 C10 C18 | safety: C10}
+//@   ensures [fresh C02 C10 C18] result != nil && fresh(result) && result.conn == c && result.reader != nil
+
+//@ func (*Conn).ReadBytes {C02 C10 C11 C17 C18 | safety: C10}
+//@   requires [nn] c != nil && c.conn != nil && c.reader != nil && ctx != nil
+//@   ensures [delim C02 C10 C11] result1 == nil ==> len(result0) >= 1 && result0[len(result0) - 1] == delim
